@@ -747,13 +747,17 @@ META = {
                   'functional_entry (entry offset_k+p of the HB load vector is the level-k vector at the p-th active function of level k: '
                   'every function is integrated with its own level\'s quadrature), coo_merge_sums_duplicates (COO->CSR returns the sum of '
                   'all triplets at (i,j)), insert_block_entries, fancy_index_rows / fancy_index_columns (numpy semantics of M[idx], M[:,idx]), '
-                  'window_sufficient_old_refuted. PARTIAL: hassemble_entry_partial (for the CONCRETE neighbors / interlevel_ix / '
+                  'sm_mul_entry and sm_transpose_entry (entry semantics of the sparse product and transpose, via axpy_spec for sorted sparse vectors), '
+                  'window_sufficient_old_refuted. PARTIAL: hassemble_entry_reachable_partial (the same as hassemble_entry_partial for every '
+                  'REACHABLE space run (hs_init axes disp) ops: the C04 invariants mesh_ok / dimensions / active functions are functions are '
+                  'discharged from tables_consistent and activity_characterisation; remaining hypotheses: locality, P_local, prolongator shape), '
+                  'hassemble_entry_partial (for the CONCRETE neighbors / interlevel_ix / '
                   'to_assemble of the model and representations = products of Kronecker prolongators, every pair of active functions of '
                   'every level pair: the blocks equal the form applied to the two basis functions on the finer level; from locality of the '
                   'level forms, P_local (children inside the parent\'s support, a hypothesis on the prolongator data), C04\'s mesh_ok and '
                   'index-box facts; the support-pattern lemma for products of Kronecker matrices is proved), '
-                  'hassemble_entry_lower_partial / hassemble_entry_upper_partial (the abstract-set versions). NOT PROVED: that the sparse '
-                  'products, transpose, Kronecker product and the represent_fine loop of the sparse-matrix program evaluate the entry form '
+                  'hassemble_entry_lower_partial / hassemble_entry_upper_partial (the abstract-set versions). NOT PROVED: that the Kronecker '
+                  'product, the represent_fine loop and the chaining of the kernels through level_blocks evaluate the entry form '
                   '(compared exactly per history on sampled entries and with the implementation); P_local for the exact Boehm matrices. '
                   'Tie: per history the model is run inside Coq on the implementation\'s own level matrices/vectors/prolongators (exact '
                   'dyadic arithmetic): rows and bounding boxes passed to _assemble_level and cell_supp_indices exact; HB/THB matrices '
